@@ -215,6 +215,30 @@ theorem cache_sound (H : List UInt8 → List UInt8) (heap : Memo.Heap) (fuel p :
   ⟨Memo.memo_agrees H heap fuel p cache c hinv ht,
    Memo.memo_agrees H heap fuel p [] c (by intro p i h; simp at h) ht⟩
 
+/-- **The Hasher is sound for error outcomes too.** Both entry points of a `boc.Hasher` — `Hash` (memo table of
+immutable cells) and `HashString` (second table `cacheHex`) — started from any valid state return exactly what the
+uncached `Cell.Hash()` / `Cell.HashString()` return for the tree the pointer denotes: the same value, the SAME ERROR
+(`ErrDepthIsTooBig`), the same panic; a successful call leaves a valid state, and an error stores nothing (the model of
+`HashString` checks the error before writing `cacheHex`; storing first would make `HexInv` fail). -/
+theorem cache_sound_errors (H : List UInt8 → List UInt8) (heap : Memo.Heap) (fuel p : Nat) (st : Memo.HasherState)
+    (c : Cell) (hinv : Memo.StateInv H heap st) (ht : Memo.tree heap fuel p = some c) :
+    Memo.AgreesSt (Memo.hasherHashSt H heap fuel p st) (Cell.reprHash H c) (Memo.StateInv H heap) ∧
+    Memo.AgreesSt (Memo.hasherHashString H heap fuel p st) (Cell.hashString H c) (Memo.StateInv H heap) :=
+  ⟨Memo.hasherHashSt_agrees H heap fuel p st c hinv ht, Memo.hasherHashString_agrees H heap fuel p st c hinv ht⟩
+
+/-- **Any sequence of calls on one Hasher**, `Hash` and `HashString` in any order and any number of times on any
+pointers (shared sub-trees, trees beyond the depth limit): every answer — value or error — is the answer of the
+uncached function on that tree, so repeated calls always agree with each other. -/
+theorem hasher_calls_sound (H : List UInt8 → List UInt8) (heap : Memo.Heap) (fuel : Nat) (calls : List Memo.Call)
+    (st : Memo.HasherState) (hinv : Memo.StateInv H heap st)
+    (hdef : ∀ c ∈ calls, (Memo.plainAnswer H heap fuel c).isSome = true) :
+    (Memo.runCalls H heap fuel calls st).map some = calls.map (Memo.plainAnswer H heap fuel) :=
+  Memo.runCalls_sound H heap fuel calls st hinv hdef
+
+/-- the empty Hasher (`NewHasher()`) is a valid state -/
+theorem new_hasher_valid (H : List UInt8 → List UInt8) (heap : Memo.Heap) : Memo.StateInv H heap ⟨[], []⟩ :=
+  ⟨by intro p i h; simp at h, by intro p s h; simp at h⟩
+
 /-- **The hash is structural.** Two pointers — in any two heaps, with any two valid memo tables — that denote the same
 tree `(type, mask, bits, refs…)` get the same answer: the result is a function of the tree alone (no read cursor, no
 pointer identity, no table content enters it). -/
